@@ -22,8 +22,13 @@ type Runner struct {
 	// FailOpen: before some images are reopened, an Open attempt is made that fails with an injected
 	// file-system error at a seeded call (a transient fault, e.g. EMFILE); the process exits and the
 	// directory is opened again.  The property speaks about the next SUCCESSFUL Open.
-	FailOpen    bool
-	FailedOpens int
+	FailOpen bool
+	// FailClose: some Close calls fail with an injected file-system error at a seeded mutating call; the
+	// process then "exits" and the run goes on in the directory as that Close left it (C13: a session
+	// that did not complete Close must be recovered; whatever Close did before failing must be harmless).
+	FailClose    bool
+	FailedCloses int
+	FailedOpens  int
 	// ReadBack after every mutating call.
 	ReadEvery bool
 	// Alt alternates fs.OS and fs.OSMMap between sessions.
@@ -64,7 +69,7 @@ func NewRunner(rec *Rec, p *Program, rp RunParams) *Runner {
 		rp.HashSeed = CurrentHashSeed()
 	}
 	r := &Runner{Mode: mode, Rng: rand.New(rand.NewSource(seed)), Dir: "db", seen: map[[3]uint64]bool{}, PowerLimit: rp.PLimit,
-		Depth: rp.Depth, Twice: rp.Twice, ReadEvery: true, Probe: rp.Probe, FullEvery: rp.FullEvery, OnlyClosed: rp.OnlyClosed, FailOpen: rp.FailOpen}
+		Depth: rp.Depth, Twice: rp.Twice, ReadEvery: true, Probe: rp.Probe, FullEvery: rp.FullEvery, OnlyClosed: rp.OnlyClosed, FailOpen: rp.FailOpen, FailClose: rp.FailClose}
 	cfg := p.Cfg
 	switch cfg.FS {
 	case "", "crashfs":
@@ -402,7 +407,11 @@ func (r *Runner) step(o Op) (died bool, err error) {
 	r.callsInOp = 0
 	switch o.Op {
 	case "reopen":
-		if err = r.S.Do(Op{Op: "close", T: o.T}); err != nil {
+		err = r.S.Do(Op{Op: "close", T: o.T})
+		if r.FS != nil {
+			r.FS.Fail = nil // an injected failure (FailClose) is meant for the Close only
+		}
+		if err != nil {
 			return false, err
 		}
 		r.closedWin = true
@@ -468,7 +477,42 @@ func (r *Runner) Run(p *Program) error {
 			continue
 		}
 		r.Ops++
+		armed := false
+		if (o.Op == "close" || o.Op == "reopen") && r.FailClose && r.FS != nil && r.S.DB != nil && r.Rng.Intn(2) == 0 {
+			// Close writes the database meta, then per segment its meta (and syncs it), then the index meta and
+			// syncs/closes the index files, then removes the lock: the failing call is drawn over all of that
+			nseg := 0
+			for _, name := range r.FS.Snapshot().Names() {
+				if strings.HasSuffix(name, ".psg") {
+					nseg++
+				}
+			}
+			n, at := 0, 1+r.Rng.Intn(14+5*nseg)
+			r.FS.Fail = func(c *crashfs.Call) error {
+				n++
+				if n == at {
+					return fmt.Errorf("injected transient file-system error")
+				}
+				return nil
+			}
+			armed = true
+		}
 		died, err := r.step(o)
+		if armed {
+			r.FS.Fail = nil
+			if !died && ErrKind(err) == "injected" {
+				// Close failed: the process exits, the next session starts in the directory as it is now
+				r.FailedCloses++
+				r.S.R.Emit(Ev{"e": "note", "what": "Close failed with an injected error and the process exited", "err": err.Error()})
+				r.FS.DropLocks()
+				if err := r.continueIn(r.FS.Snapshot().CrashContent(), false); err != nil {
+					return err
+				}
+				r.closedWin = false
+				r.between()
+				continue
+			}
+		}
 		if died {
 			if err := r.continueIn(r.target, r.tgtLossy); err != nil {
 				return err
